@@ -14,6 +14,7 @@ final counters and the final population are all predictions of the model.  No Ma
 -/
 import MysticVerif.Model.Solver
 import MysticVerif.Model.NelderMead
+import MysticVerif.Model.PowellS
 import MysticVerif.Model.Termination
 
 namespace MysticVerif.Closed
@@ -26,6 +27,8 @@ variable {S : Type}
 structure Alg (S : Type) where
   step : S → Nat → S
   nlog : S → Nat
+  /-- records in the step monitor written by the algorithm itself -/
+  nrec : S → Nat
   term : S → Ctl → Bool
 
 /-- the outcome of a run of `Step`s -/
@@ -43,7 +46,7 @@ def stepOnce (a : Alg S) (c : Ctl) (s : S) (k : Nat) : Ctl × S × Option Msg ×
   let tpre := a.term s c.pre
   let s' := a.step s k
   -- `generations = len(stepmon) - 1`: the first `_Step` (initial evaluation) writes record 0 and leaves generations at 0
-  let d : Delta := { dEvals := a.nlog s' - a.nlog s, dGens := if c.nstep = 0 then 0 else 1 }
+  let d : Delta := { dEvals := a.nlog s' - a.nlog s, dGens := if c.nstep = 0 then 0 else 1, dStep := a.nrec s' - a.nrec s }
   let tpost := a.term s' (c.after d)
   let r := c.step tpre tpost d
   (r.1, (if r.2.2 = true then s' else s), r.2.1, r.2.2)
@@ -88,6 +91,11 @@ def nmView (s : NM R R) (c : Ctl) : Term.View R :=
     best := (s.simplex.map Prod.fst).headD [], trial := [], trial2d := false, grad := [], gens := c.gens,
     fcalls := c.evals, earlyExit := c.earlyExit, tTime := 0, tPerf := 0, tProc := 0 }
 
+/-- Powell: `energy_history` carries the deferred entry of the iteration in progress; one member -/
+def pwView (s : PowellS.Pw R R) (c : Ctl) : Term.View R :=
+  { hist := s.hist, pop := [s.x], popE := [s.fval], best := s.x, trial := [], trial2d := false, grad := [],
+    gens := c.gens, fcalls := c.evals, earlyExit := c.earlyExit, tTime := 0, tPerf := 0, tProc := 0 }
+
 end Views
 
 section Algs
@@ -105,6 +113,7 @@ def deAlg (two : Bool) (o : Obj (List R) R) (cond : Term.Cond R) (pop0 : List (L
       let ts := if k = 0 then pop0 else trialss.getD (k - 1) []
       if two = true then DE.step2 o ts s else DE.step1 o ts s
     nlog := fun s => s.log.length
+    nrec := fun s => s.stepLog.length
     term := fun s c => verdict cond (deView s c) }
 
 /-- Nelder-Mead from the initial guess alone -/
@@ -115,7 +124,19 @@ def nmAlg (o : Obj (Pt R) R) (coef : Coef R) (st clip0 mkVal : Pt R → Pt R) (c
       else if k = 1 then NM.gen1 o clip0 mkVal s
       else (NM.update o coef st s).1
     nlog := fun s => s.log.length
+    nrec := fun s => s.stepLog.length
     term := fun s c => verdict cond (nmView s c) }
+
+/-- Powell's direction-set solver with the Brent line search as oracle (the k-th search of the run) -/
+def pwAlg (o : Obj (Pt R) R) (cfg : PowellS.PwCfg R R) (ls : Nat → Pt R → Pt R → PowellS.LsRec R) (cond : Term.Cond R)
+    (record : Bool) (x0 : Pt R) (direc : List (Pt R)) : Alg (PowellS.Pw R R) :=
+  { step := fun s k =>
+      if k = 0 then PowellS.gen0 o cfg record x0 direc
+      else if k = 1 then PowellS.gen1 o cfg ls s
+      else PowellS.genN o cfg ls s
+    nlog := fun s => s.log.length
+    nrec := fun s => s.stepLog.length
+    term := fun s c => verdict cond (pwView s c) }
 
 end Algs
 
